@@ -399,6 +399,18 @@ func c01SweepBitmap(l, p int) []uint64 {
 			case l - 1:
 				w[i] = 1<<63 | 1<<62 | 1<<31 | 1
 			}
+		case 11:
+			// ONE 1-bit at the very start, then nothing for half the bitmap, then an all-ones word and a
+			// half-full one: the 1-bits number 1..31 belong to the select sample at bit 0 but lie 2^20..2^30
+			// bits away from it, and the next sample lies there too (a gap between consecutive samples)
+			switch i {
+			case 0:
+				w[i] = 1
+			case l / 2:
+				w[i] = ^uint64(0)
+			case l/2 + 1:
+				w[i] = 0x00000000ffffffff
+			}
 		case 10:
 			// four all-ones words (256 ones: 8 select samples) at both ends and in the middle of a
 			// bitmap of 2^25 words
